@@ -47,7 +47,7 @@ def run_case(spec):
     live = P.Live()
     case = None
     first = None
-    pristine = [dict(vars(o)) for o in live.objs]
+    pristine = [P.snapshot_obj(o) for o in live.objs]
     for n in range(spec["runs"]):
         del live.log[:]
         live.handler_calls[:] = []
@@ -63,7 +63,7 @@ def run_case(spec):
             what = (want or got)[0]
             vs.append(V("sequence", "run%d-%s-%s" % (min(n, 1), kind, what),
                         "run %d: execution log diverges at %d: got %r, reference %r\n got: %r\n ref: %r" % (n, i, got, want, log, model.log)))
-        now = [dict(vars(o)) for o in live.objs]
+        now = [P.snapshot_obj(o) for o in live.objs]
         if now != pristine:
             vs.append(V("restore", "patched-attributes", "after run %d the scratch objects are %r, before the test %r" % (n, now, pristine)))
         if getattr(case, "_cleanups", None):
@@ -74,8 +74,7 @@ def run_case(spec):
         elif (log, summ, repr(type(obs["raised"]))) != first and not vs:
             vs.append(V("rerun", "differs", "run %d differs from run 0: outcome/markers %r vs %r" % (n, summ, first[1])))
         for o, p in zip(live.objs, pristine):      # start the next run from a pristine world (isolates the clauses)
-            vars(o).clear()
-            vars(o).update(p)
+            P.restore_obj(o, p)
         if vs:
             break
 
